@@ -30,7 +30,7 @@ D = {
          "Trusted: digit extraction in the harness. 'f' only for moderate exponents.", MC),
  "C12": ("E1", "All strings of length <= 6 (7 thorough) over a 14-symbol alphabet x 5 bases against a reference grammar and, differentially, math/big Float.Parse (accept set and base); structured decimal literals split around the radix point everywhere with separators and huge exponents x precisions x modes against the exact literal evaluator; base 2/8/16 and p-exponent literals exact-or-within-1ulp; SetString/ParseDecimal/UnmarshalText/Sscan agree with Parse. Long mantissas cancelled by binary exponents of up to ±280000 bits (exact powers of two of 10^4+ digits).",
          "Trusted: reference grammar/evaluator in mc/parse.go, math/big as differential oracle for the accept set.", MC + "; differential against math/big"),
- "C13": ("E1", "Values (each also as the same value carrying accuracy Below/Above from an earlier operation) x 6 modes x formats e,E,f,g,G,p,b x precisions -1..40 against a reference formatter (round once at the requested position under x's mode, then strconv layout), fmt verbs x all 16 flag subsets x widths x precisions against fmt's own float64 formatting on float64-exact values; the reference formatter is pinned to strconv.FormatFloat in the same run.",
+ "C13": ("E1", "Values (each also as the same value carrying accuracy Below/Above from an earlier operation) x 6 modes x formats e,E,f,g,G,p,b x precisions -1..40 (and every precision 0..300 on 7 values) against a reference formatter (round once at the requested position under x's mode, then strconv layout), fmt verbs x all 16 flag subsets x widths x precisions against fmt's own float64 formatting on float64-exact values; the reference formatter is pinned to strconv.FormatFloat in the same run.",
          "Trusted: reference formatter pinned to strconv/fmt of the toolchain.", MC),
  "C14": ("E1", "Int/Int64/Uint64/Rat/IsInt/MinPrec on values around 2^63, 2^64, 10^19 with fractional parts, D(3) x exponents, W(3,S7) x exponents, specials; SetInt/SetInt64/SetUint64/SetRat/NewDecimal over edge integers, 2^k±d and 10^k±d up to 4000 bits, rationals, exponent extremes x precisions x modes; oracle big.Int/big.Rat.",
          "Trusted: math/big.", MC),
